@@ -83,27 +83,47 @@ func flagOptions(flags uint32, salt int) []interpreter.ExecutionOptionFunc {
 	var conv []interpreter.ExecutionOptionFunc
 	rest := f
 	if f&scriptflag.UTXOAfterGenesis != 0 {
-		conv, rest = append(conv, interpreter.WithAfterGenesis()), rest&^scriptflag.UTXOAfterGenesis
+		conv, rest = append(conv, optAfterGenesis), rest&^scriptflag.UTXOAfterGenesis
 	}
 	if f&scriptflag.EnableSighashForkID != 0 {
-		conv, rest = append(conv, interpreter.WithForkID()), rest&^scriptflag.EnableSighashForkID
+		conv, rest = append(conv, optForkID), rest&^scriptflag.EnableSighashForkID
 	}
 	if f&scriptflag.Bip16 != 0 {
-		conv, rest = append(conv, interpreter.WithP2SH()), rest&^scriptflag.Bip16
+		conv, rest = append(conv, optP2SH), rest&^scriptflag.Bip16
 	}
 	if salt < 0 {
 		salt = -salt
 	}
 	switch salt % 4 {
 	case 1:
-		return append(conv, interpreter.WithFlags(rest))
+		return append(conv, withFlags(rest))
 	case 2:
-		return append([]interpreter.ExecutionOptionFunc{interpreter.WithFlags(rest)}, conv...)
+		return append([]interpreter.ExecutionOptionFunc{withFlags(rest)}, conv...)
 	case 3:
 		lo := f & 0x5555_5555
-		return []interpreter.ExecutionOptionFunc{interpreter.WithFlags(lo), interpreter.WithFlags(f &^ lo)}
+		return []interpreter.ExecutionOptionFunc{withFlags(lo), withFlags(f &^ lo)}
 	}
-	return []interpreter.ExecutionOptionFunc{interpreter.WithFlags(f)}
+	return []interpreter.ExecutionOptionFunc{withFlags(f)}
+}
+
+// Option values are values: a caller may build them once and hand the same one
+// to many executions (with other options in front of or behind it). The
+// monitors keep one WithFlags value per flag set for the life of the process,
+// and one of each convenience option.
+var (
+	optAfterGenesis = interpreter.WithAfterGenesis()
+	optForkID       = interpreter.WithForkID()
+	optP2SH         = interpreter.WithP2SH()
+	optWithFlags    = map[scriptflag.Flag]interpreter.ExecutionOptionFunc{}
+)
+
+func withFlags(f scriptflag.Flag) interpreter.ExecutionOptionFunc {
+	o, ok := optWithFlags[f]
+	if !ok {
+		o = interpreter.WithFlags(f)
+		optWithFlags[f] = o
+	}
+	return o
 }
 
 // libOptions builds the Execute options for a program; scripts are copied so
